@@ -13,6 +13,9 @@ type instrPred func(ssa.Instruction) bool
 
 // CallStr renders a call instruction (value or not) canonically.
 func (p *Prog) CallStr(ci ssa.CallInstruction) string {
+	if c, ok := ci.(*ssa.Call); ok {
+		return p.R(ci.Parent()).E(c)
+	}
 	return p.R(ci.Parent()).call(ci.Common())
 }
 
